@@ -283,6 +283,42 @@ def closed_forms(repo, rep):
         if not found:
             rep.fail("R-C01-5", fi.file, fi.node.lineno, fi.qualname, "deep-water branch", f"the deep-water closed form 1.56 * f^{power} is missing")
     rep.floor("R-C01-5", "deep-water closed-form sites", len(sites), 6)
+    # finite depth: linear dispersion through the wavenumber, c = 2 pi f / k(f, h), L = 2 pi / k(f, h); the deep-water closed form
+    # belongs to the `depth is None` branch only (a depth-dependent shortcut to 1.56/f is off by more than 0.1 % near h = L/2)
+    import math
+    from ..astutil import returns as _rets, resolve as _res
+    for fi, fpow in ((repo.func("wavespectra.core.utils.celerity"), 1), (repo.func("wavespectra.core.utils.wavelen"), 0)):
+        dpar = fi.params[1]
+        branch = None
+        for i_ in ast.walk(fi.node):
+            if isinstance(i_, ast.If) and isinstance(i_.test, ast.Compare) and unparse(i_.test.left) == dpar and repo.const(fi.module, i_.test.comparators[0]) is None:
+                branch = (i_.body, i_.orelse) if isinstance(i_.test.ops[0], ast.IsNot) else (i_.orelse, i_.body)
+        if branch is None:
+            raise AnalysisError(f"{fi.short}: `if {dpar} is not None` branch not found")
+        finite, deep = branch
+        fnodes = {id(x) for st in finite for x in ast.walk(st)}
+        bad = [n for n in ast.walk(fi.node) if isinstance(n, ast.BinOp) and id(n) in fnodes and
+               (lambda m_: m_ is not None and abs(m_[0] - 1.56) < 1e-12)(monomial(repo, fi.module, n, {}))]
+        rets = [(r_, v_) for r_, v_ in _rets(fi.node) if id(r_) in fnodes]
+        ok_form = False
+        if len(rets) == 1 and not bad:
+            v_ = rets[0][1]
+            if isinstance(v_, ast.BinOp) and isinstance(v_.op, ast.Div) and isinstance(v_.right, ast.Call) and call_name(v_.right).split(".")[-1] == "wavenuma" \
+                    and [unparse(a_) for a_ in v_.right.args] == fi.params[:2]:
+                num = _res(fi.node, v_.left, before=rets[0][0].lineno + 1)
+                local = {}
+                m_ = monomial(repo, fi.module, num, local)
+                if m_ is not None and abs(m_[0] - 2 * math.pi) < 1e-12:
+                    exps = {k.split(".")[-1]: e for k, e in m_[1].items()}
+                    ok_form = (exps == {fi.params[0]: fpow}) if fpow else (exps == {})
+        if ok_form:
+            rep.ok("R-C01-5", f"{fi.file}:{rets[0][0].lineno} {fi.short}", unparse(rets[0][1])[:60], "2 pi f^%d / wavenuma(freq, depth) for every finite depth" % fpow)
+        else:
+            where = bad[0] if bad else (rets[0][0] if rets else fi.node)
+            rep.fail("R-C01-5", fi.file, where.lineno, fi.qualname, unparse(where)[:100],
+                     f"with a depth given, {fi.name} must be 2 pi f^{fpow} / wavenuma(freq, depth) for EVERY depth: a deep-water shortcut (1.56/f) "
+                     "inside the finite-depth branch breaks the linear dispersion relation by more than 0.1 % near depth = wavelength / 2",
+                     anchor=f"finite-depth-form:{fi.name}")
     # wavenuma: the polynomial loop covers the whole coefficient table
     fi = repo.func("wavespectra.core.utils.wavenuma")
     D = None
@@ -349,6 +385,24 @@ def shared_c01(repo, rep, T):
     for f, ln, fn, cons, why in accessor_state(repo, eng, T.sa):
         rep.fail("R-C01-6", f, ln, fn, cons, why + ": a bin width / intermediate is cached on the accessor instance: after the coordinates are edited the statistics are integrated with stale values")
     rep.ok("R-C01-6", "SpecArray", "no derived state on the accessor", "df, dd recomputed from the current coordinates")
+    # a statistic that writes into the spectrum it is measuring changes every statistic computed afterwards (1-D vs 2-D paths differ:
+    # only the path that hands out a view of the data is hit)
+    nst = 0
+    _seen_sites = set()
+    for mname, fi in T.sa.methods.items():
+        if mname.startswith("__"):
+            continue
+        nst += 1
+        sm = eng.summ.get(fi.qualname)
+        for (r, rp), e in (sm.effects.items() if sm else []):
+            if r == "self" and rp in ("B", "Bc") and (e.file, e.line) not in _seen_sites:
+                _seen_sites.add((e.file, e.line))
+                rep.fail("R-C01-6", e.file, e.line, fi.qualname, e.construct,
+                         f"{e.what}: the statistic overwrites values of the spectrum it integrates (reached on the path where the "
+                         "intermediate is a view of the data, e.g. 1-D spectra), so it and later statistics no longer equal the defining integrals",
+                         list(e.via), anchor=f"statistic-writes-data:{mname}")
+                break
+    rep.ok("R-C01-6", "SpecArray", f"{nst} methods", "no method writes the buffer of the wrapped spectrum")
 
 
 def explanation_c01(rep):
